@@ -19,6 +19,7 @@ import (
 	"fmt"
 	"go/format"
 	"go/types"
+	"sort"
 	"strconv"
 )
 
@@ -184,8 +185,16 @@ func (tm *typesMap) nameOf(typs []types.Type) (string, bool) {
 			}
 		}
 	}
-	for name, ts := range tm.funcToTyps {
-		if eq(typs, ts) {
+	// several registered type lists can be assignable to typs (named and
+	// unnamed types with the same underlying type); visit the names in sorted
+	// order so that the choice does not depend on map iteration order.
+	names := make([]string, 0, len(tm.funcToTyps))
+	for name := range tm.funcToTyps {
+		names = append(names, name)
+	}
+	sort.Strings(names)
+	for _, name := range names {
+		if eq(typs, tm.funcToTyps[name]) {
 			return name, true
 		}
 	}
